@@ -26,7 +26,7 @@ theorem stepW_dead (cfg : Cfg) (sh : Shared) (w : Nat) (wk : Worker) :
   · rfl
   · split
     · rfl
-    · simp only; split <;> rfl
+    · split <;> rfl
   · rfl
   · split <;> rfl
   · exact doRename_dead _ _ _ _ _ rfl
@@ -78,8 +78,7 @@ theorem stepW_effect (cfg : Cfg) (sh : Shared) (w : Nat) (wk : Worker) :
     exact .same rfl (by simp [holding, hpc])
   · split
     · exact .same rfl (by simp [holding])
-    · simp only
-      split
+    · split
       · exact .same rfl (by simp [holding])
       · exact .same rfl (by simp [holding])
   · exact .same rfl (by simp [holding])
@@ -347,10 +346,10 @@ theorem stepW_pc_ne (cfg : Cfg) (sh : Shared) (w : Nat) (wk : Worker) : (stepW c
   · simp [hpc]
   · split
     · simp [hpc]
-    · simp only; split <;> simp [hpc]
+    · split <;> simp [hpc]
   · simp [hpc]
   · split
-    · simp only; split <;> simp [hpc]
+    · split <;> simp [hpc]
     · simp [hpc]
   · unfold doRename; split <;> simp [hpc]
   · unfold doUnlink; split <;> simp [hpc]
@@ -406,17 +405,17 @@ theorem run_solo (cfg : Cfg) (w : Nat) (k : Nat) : ∀ (st : St) (wk : Worker), 
 
 /-- what the takeover loop of one waiter does to (shared state, worker), computed symbolically -/
 theorem solo_takeover (cfg : Cfg) (g : Nat) (hg : cfg.grace = some g) (sh : Shared) (w : Nat) (wk : Worker) (o s : Nat)
-    (hpc : wk.pc = .create) (hlock : sh.lock = some (o, s)) (hm : wk.mtime = some (statVal cfg sh s))
+    (hpc : wk.pc = .create) (hlock : sh.lock = some (o, s)) (hm : wk.mtime = some s)
     (hlast : wk.last + g < sh.now) :
     (solo cfg w (match cfg.kind with | .symlink => 8 | .openExcl => 9) (sh, wk)).1.lock = some (w, sh.now) ∧
     (solo cfg w (match cfg.kind with | .symlink => 8 | .openExcl => 9) (sh, wk)).2.pc = .crit := by
   obtain ⟨kind, grace⟩ := cfg
   obtain ⟨pc, dead, mtime, last, nren, failed⟩ := wk
-  obtain ⟨lock, tgt, now, tmps⟩ := sh
+  obtain ⟨lock, now, tmps⟩ := sh
   simp only at hg hpc hlock hm hlast
   subst hg hpc hlock hm
   cases kind <;>
-    simp [solo, stepW, statVal, doRename, doUnlink, isMine, hlast]
+    simp [solo, stepW, doRename, doUnlink, isMine, hlast]
 
 
 end OptunaVerif.FileLock
